@@ -8,3 +8,4 @@ pub mod eng_layers;
 pub mod eng_writer;
 pub mod eng_repair;
 pub mod eng_reader;
+pub mod eng_transfer;
